@@ -6,6 +6,7 @@ import os
 import zoneinfo
 
 import common as C
+import srctie
 
 US = 10**6
 MIN = 60 * US
@@ -1428,6 +1429,11 @@ def explore(ctx, rep, cases, label, shard=25, chunk=None):
 def run(ctx):
     rep = C.Report(ctx, META)
     rep.add_obligations(C.proof_obligations("C15"))
+    # source tie: get_schedules / get_all_schedules / delayed_send / one iteration of run_scheduler_loop re-translated
+    # from the source text; srcproofs/Src_sched_loop_C15.v re-checked
+    src_obs, src_info = srctie.obligations(ctx, "sched_loop", "C15")
+    rep.add_obligations(src_obs)
+    rep.extra["source_tie"] = src_info
     corpus = C.load_corpus("C15")
     corpus_known = {}
     if corpus:
